@@ -170,6 +170,7 @@ type Disagreement struct {
 var (
 	slowModel     sync.Mutex
 	modelNoAnswer int64
+	implRetries   int64
 )
 
 type caseOutcome struct {
@@ -227,6 +228,15 @@ func runCase(p *Pair, env *Env, c Case) caseOutcome {
 			prewarmJoins(p, env, op.Args[0:6], op.Args[6:])
 		}
 		ri := p.Impl(op, env.timeout)
+		if ri.Status == "timeout" && atomic.LoadInt64(&implRetries) < 3 {
+			// a time-out of the implementation is a finding (a hang) — unless the machine was merely busy: the operation is
+			// asked again, alone, with five times the limit (at most three times per run: a change that makes the code hang
+			// on many inputs is established after the first few)
+			atomic.AddInt64(&implRetries, 1)
+			slowModel.Lock()
+			ri = p.Impl(op, 5*env.timeout)
+			slowModel.Unlock()
+		}
 		rm := p.Model(op, env.timeout)
 		if rm.Status == "timeout" {
 			// The model is a fixed artefact: how long it takes on an input does not depend on the code under check
@@ -607,6 +617,7 @@ func runProperty(pr *Property, env *Env, tier string, seed int64, lean leanResul
 		"known_finding_lines":                    findingLines,
 		"harness_errors":                         len(harnessErrs),
 		"model_no_answer":                        atomic.LoadInt64(&modelNoAnswer),
+		"implementation_timeouts_asked_again":    atomic.LoadInt64(&implRetries),
 		"source_pattern_literals":                patternWatchNote,
 	}
 	assumptions := append([]string{
